@@ -26,11 +26,22 @@ struct verif_idn_ctx { unsigned long magic; long id; };
 static struct verif_idn_ctx ctx_arena[CTX_ARENA];
 /* contexts are never returned to the allocator, so that use-after-destroy and double destroy can be *observed*
  * (recorded at the moment they happen) instead of crashing the monitor */
+static int ctx_in_arena(idn_resconf_t c) { return c >= ctx_arena && c < ctx_arena + CTX_ARENA; }
+
+/* fault plan for the online monitor: the k-th idn_resconf_create from now fails (0 = none) */
+long verif_idn_fail_create_countdown = 0, verif_idn_create_failures = 0;
+void verif_idn_plan_create_failure(long k);
+void verif_idn_plan_create_failure(long k) { verif_idn_fail_create_countdown = k; }
+
 idn_result_t idn_resconf_initialize(void) { return idn_success; }
 
 idn_result_t idn_resconf_create(idn_resconf_t *ctx)
 {
     struct verif_idn_ctx *c;
+    if (verif_idn_fail_create_countdown > 0 && --verif_idn_fail_create_countdown == 0) {
+        verif_idn_create_failures++;
+        return IDN2_MALLOC;                  /* *ctx is left untouched, as a failing constructor would */
+    }
     if (verif_idn_creates >= CTX_ARENA) { fprintf(stderr, "adapter: context arena exhausted\n"); abort(); }
     c = &ctx_arena[verif_idn_creates];
     c->magic = CTX_MAGIC_LIVE;
@@ -42,7 +53,7 @@ idn_result_t idn_resconf_create(idn_resconf_t *ctx)
 
 void idn_resconf_destroy(idn_resconf_t ctx)
 {
-    if (ctx == NULL || (ctx->magic != CTX_MAGIC_LIVE && ctx->magic != CTX_MAGIC_DEAD)) { verif_idn_bad_use++; return; }
+    if (ctx == NULL || !ctx_in_arena(ctx) || (ctx->magic != CTX_MAGIC_LIVE && ctx->magic != CTX_MAGIC_DEAD)) { verif_idn_bad_use++; return; }
     if (ctx->magic == CTX_MAGIC_DEAD) { verif_idn_double_destroy++; return; }
     ctx->magic = CTX_MAGIC_DEAD;
     verif_idn_destroys++;
@@ -56,7 +67,7 @@ idn_result_t idn_res_encodename(idn_resconf_t ctx, idn_action_t actions, const c
     /* the real library interprets `actions`: anything but the documented encode action sets is a caller bug */
     if (actions != IDN_ENCODE_REGIST && actions != IDN_ENCODE_LOOKUP) verif_idn_bad_actions++;
     verif_idn_encodes++;
-    if (ctx == NULL || ctx->magic != CTX_MAGIC_LIVE) verif_idn_bad_use++;
+    if (ctx == NULL || !ctx_in_arena(ctx) || ctx->magic != CTX_MAGIC_LIVE) verif_idn_bad_use++;
     rc = idn2_to_ascii_8z(from, &out, IDN2_NONTRANSITIONAL);
     if (rc != IDN2_OK) { if (out) idn2_free(out); return rc; }
     if (strlen(out) + 1 > tolen) { idn2_free(out); return IDN2_TOO_BIG_DOMAIN; }
